@@ -83,6 +83,11 @@ def c01_families(run):
         Family("dotdeep", "./" + L, 7 if q else 9, prefixes=["http://h/a/b/", "x:/a/"], bases=[] , invariants=inv),
         Family("creds", L + "@:", 6 if q else 8, prefixes=["http://", "x://"], suffixes=["h/"], invariants=inv),
     ]
+    # dotspell: every spelling of '.' and '..' segments ('.', %2e, %2E in every combination) in every path position
+    singles = [".", "%2e", "%2E"]
+    doubles = [a + b for a in singles for b in singles]
+    dframes = [(pre + d, sfx) for d in singles + doubles for pre in ("http://h/a/b/", "x://h/a/b/", "file:///a/", "http://h/a/b/" + L) for sfx in ("", "/", "/c", "?q", L)]
+    fams.append(Family("dotspell", "/." + L, 1 if q else 2, frames=dframes, bases=[] if q else ["http://b/x/y/z"], invariants=inv))
     # class: one code point substituted at each of 12 positions, alone and next to '%'
     boundary = [0x7F, 0x80, 0xA0, 0x7FF, 0x800, 0xD7FF, 0xE000, 0xFDD0, 0xFFFD, 0xFFFE, 0x10000, 0x1FFFE, 0x10FFFF,
                 0x110080, 0x1100C0, 0x1100FF]   # the last three are raw invalid bytes 0x80 0xC0 0xFF
@@ -710,6 +715,16 @@ def check_c20(run):
              ("many-questions", "http://h/?", "?", ""), ("nonspecial-segments", "x://h/", "a/", ""), ("relative-dots", "", "../", "x")]
     for name, p, u, s in named:
         fams.append({"name": name, "prefix": cps(p), "unit": cps(u), "suffix": cps(s), "base": cps("http://b/c/d") if name == "relative-dots" else [], "op": "parse"})
+    # two-phase families: grow a structure with one unit, then shrink / rescan it with another (also as long base + long reference)
+    for pre in ("http://h/", "file:///", "x://h/"):
+        for u1 in ("a/", "/", "a/b/", "./a/"):
+            for u2 in ("../", "..\\", "%2e%2e/", "./", "../a/", "a/../../"):
+                if u2 == "..\\" and pre.startswith("x"):
+                    continue
+                fams.append({"name": "two-phase:%s|%s|%s" % (pre, u1, u2), "prefix": cps(pre), "unit": cps(u1), "unit2": cps(u2), "suffix": [], "base": [], "op": "parse"})
+                fams.append({"name": "base+ref:%s|%s|%s" % (pre, u1, u2), "prefix": [], "unit": cps(u2), "suffix": cps("x"), "base": cps(pre), "baseunit": cps(u1), "op": "parse"})
+    for pre, u1, u2 in [("http://", "a", "@"), ("http://", "@", "a"), ("http://", "a:", "@"), ("http://h/?", "a=b&", "a=c&"), ("http://", "a.", "1."), ("http://[", "1:", "::")]:
+        fams.append({"name": "two-phase:%s|%s|%s" % (pre, u1, u2), "prefix": cps(pre), "unit": cps(u1), "unit2": cps(u2), "suffix": cps("h/"), "base": [], "op": "parse"})
     for name, p, u, s in [("sp-many-params", "http://h/?", "a=b&", ""), ("sp-long-value", "http://h/?a=", "v", "")]:
         fams.append({"name": name, "prefix": cps(p), "unit": cps(u), "suffix": cps(s), "base": [], "op": "searchparams"})
     for name, u in [("set-plain", "a"), ("set-slashes", "a/"), ("set-at", "@"), ("set-pct", "%41"), ("set-amp", "a=b&")]:
